@@ -18,7 +18,7 @@ def plan(tier):
     n = 400 if tier == 'quick' else 6000
     return dict(n_cases=n, shards=16, min_nontrivial=n // 3,
                 min_tags={'path:analytic': n // 4, 'path:state': n // 6, 'clause:uniform_state': n // 30,
-                          'clause:per_point_table': n // 30, 'model:kpanel': n // 30},
+                          'clause:per_point_table': n // 40, 'clause:varying_table': n // 40, 'model:kpanel': n // 30},
                 watchdog_s=1800 if tier == 'quick' else 10000,
                 rule='panels as in C02; analytic path: random real (Nxx,Nyy,Nxy) of all signs incl. pure shear/tension, sub-intervals, '
                      'placement; state path (plate, cpanel): random Ritz states, NLgeom on/off, Gauss orders 2..%d, uniform 6x6 vs '
@@ -112,7 +112,7 @@ def run_case(rng, tier, idx):
     nmaxg = 16 if tier == 'quick' else 64
     nx = int(rng.integers(2, nmaxg + 1)); ny = int(rng.integers(2, nmaxg + 1))
     NLgeom = bool(rng.random() < 0.5)
-    mode = str(rng.choice(['random_state', 'random_state', 'uniform_state', 'per_point_table']))
+    mode = str(rng.choice(['random_state', 'random_state', 'uniform_state', 'per_point_table', 'varying_table']))
     c.desc.update(nx=nx, ny=ny, NLgeom=NLgeom, mode=mode)
     c.tag('mode:' + mode, 'NLgeom' if NLgeom else 'lin')
     size = d['size']
@@ -160,6 +160,12 @@ def run_case(rng, tier, idx):
     if mode == 'per_point_table':
         c.tag('clause:per_point_table')
         Farg = np.ascontiguousarray(np.broadcast_to(np.asarray(p.F), (nx, ny, 6, 6)).copy())
+    spt = None
+    if mode == 'varying_table':
+        c.tag('clause:varying_table')
+        # laminate table that really varies from point to point: F(p) = s(p) * F, s in (0.5, 1.5)
+        spt = rng.uniform(0.5, 1.5, size=(nx, ny))
+        Farg = np.ascontiguousarray(np.asarray(p.F)[None, None, :, :] * spt[:, :, None, None])
     cbefore = cfull.copy()
     try:
         KG = p.calc_kG0(size=size, row0=row0, col0=row0, silent=True, c=cfull, nx=nx, ny=ny, Fnxny=Farg, NLgeom=NLgeom)
@@ -184,7 +190,10 @@ def run_case(rng, tier, idx):
         E[1] += 0.5 * wy * wy
         E[2] += wx * wy
     Nres = F[:3, :] @ E            # [3, npts]
-    Sres = SF[:3, :] @ np.abs(E)      # SF: absolute-value scale of F (B of a symmetric stack is cancellation noise)
+    Sres = SF[:3, :] @ np.abs(E)
+    if spt is not None:
+        Nres = Nres * spt.ravel()[None, :]     # gauss_grid orders the points as [ix*ny + iy], like Fnxny[ptx, pty]
+        Sres = Sres * spt.ravel()[None, :]      # SF: absolute-value scale of F (B of a symmetric stack is cancellation noise)
     Npts = np.zeros((xs.size, 2, 2)); Spts = np.zeros((xs.size, 2, 2))
     Npts[:, 0, 0] = Nres[0]; Npts[:, 1, 1] = Nres[1]; Npts[:, 0, 1] = Npts[:, 1, 0] = Nres[2]
     Spts[:, 0, 0] = Sres[0]; Spts[:, 1, 1] = Sres[1]; Spts[:, 0, 1] = Spts[:, 1, 0] = Sres[2]
